@@ -157,6 +157,21 @@ def check(col: Collector, tier: str):
                 ok = len(acts) == 2 and acts[0].kind == "set-derived" and acts[1].kind == "push" and acts[1].what == "iftest"
                 col.add("C01.R2", f.short, "moves-to-sequence-value-scope-then-opens-if", ok,
                         f"cursor actions {[a.kind + ':' + a.what[:40] for a in acts]}", f.loc)
+            # what First() hands on must have been computed INSIDE the first-element guard.  A sequence-valued element (First of a
+            # sequence of sequences) has its loop already written by as_sequence, outside the guard: returning it unchanged yields
+            # the inner elements of EVERY outer element, not of the first.
+            pubs = [c for c in walk_no_nested(f.node) if isinstance(c, ast.Call) and call_name(c) == "set_rep"]
+            seq_arm = None
+            if len(pubs) == 1:
+                v = resolve_name(f.node, pubs[0].args[1])
+                if isinstance(v, ast.IfExp) and "cpp_sequence" in src(v.test):
+                    seq_arm = v.body if "not" not in src(v.test).split("isinstance")[0] else v.orelse
+            confined = seq_arm is None or not isinstance(seq_arm, ast.Name)
+            has_refusal = any(isinstance(r, ast.Raise) and any("cpp_sequence" in src(t) and tr_ for t, tr_ in guards(f.node, r, parent_map(f.node)))
+                              for r in walk_no_nested(f.node))
+            col.add("C01.R15", f.short, "sequence-valued-first-confined-to-the-guard", confined or has_refusal,
+                    "when the element is itself a sequence, call_First publishes that sequence as it is: its loop was written before (outside) "
+                    "`if (is_first)`, so every outer element contributes", f.loc)
         elif name == "visit_call_Aggregate_initial":
             for recs, end, st in live:
                 acts = cursor_actions(recs)
@@ -199,6 +214,24 @@ def check(col: Collector, tier: str):
         elif name == "code_fill_ttree":
             pass  # its placement logic is the runtime scope algebra (not decided); C05 checks the statements it emits
     check_container_elements(col, "C01.R2", methods)
+    # a flattened sequence spans TWO loops (the source's and the inner one): the terminals (Count/Sum/Aggregate accumulators, the
+    # First flag) declare their state just outside `iterator_value().scope()`, which must therefore reach outside the source's loop
+    sm = methods.get("call_SelectMany")
+    if sm is not None:
+        pubs = [c for c in walk_no_nested(sm.node) if isinstance(c, ast.Call) and call_name(c) == "set_rep"]
+        v = pubs[0].args[1] if len(pubs) == 1 else None
+        inner_only = False
+        if isinstance(v, ast.Name):
+            ds = [n for n in walk_no_nested(sm.node) if isinstance(n, ast.Assign) and any(isinstance(t, ast.Name) and t.id == v.id for t in n.targets)]
+            last = max(ds, key=lambda n: n.lineno) if ds else None
+            if last is not None and isinstance(last.value, ast.Call) and call_name(last.value) == "as_sequence" and last.value.args \
+                    and isinstance(last.value.args[0], ast.Name):
+                cd = defs_of(sm.node, last.value.args[0].id)
+                inner_only = len(cd) == 1 and isinstance(cd[0], ast.Call) and src(cd[0].func) == "ast.Call"
+        col.add("C01.R16", sm.short, "flattened-sequence-keeps-its-outer-loop", not inner_only,
+                "call_SelectMany publishes the inner sequence as it is (as_sequence(<the lambda applied to the element>)): nothing in it refers to the "
+                "source's loop, so Count()/Sum()/Aggregate()/First() on the flattened sequence declare their accumulator or flag INSIDE the source's "
+                "loop and are evaluated once per outer element", sm.loc)
 
     check_loop_identity(col, repo, methods)
     check_accumulator(col, repo, methods)
